@@ -252,6 +252,10 @@ class ModelFamily:
             out.append(V('C20', 'parse-failed', 'panic' if 'panic' in rt else 'error', f"generated model does not parse: {str(rt)[:200]}", scenario=sid))
             return out
         obs['c20.models'] += 1
+        # what was written is what was parsed: every field of the generated model is in the parsed one with the same value
+        d = self.lost(w, rt['v1'])
+        if d:
+            out.append(V('C20', 'parsed-model-loses-field', re.sub(r'/\d+', '/*', d[0]).split('/')[-1] + ':' + type(d[1]).__name__, f"field {d[0]} = {d[1]!r} of the written model came back as {d[2]!r}", scenario=sid))
         if not rt['yml_eq']:
             out.append(V('C20', 'yaml-roundtrip', self.diffpath(rt['v1'], rt.get('v2')), f"YAML round trip changes the model at {self.diff(rt['v1'], rt.get('v2'))[:3]}", scenario=sid))
         if not rt['json_eq']:
@@ -334,6 +338,35 @@ class ModelFamily:
                 first = next((i for i, (e, g_) in enumerate(zip(exp, got)) if tuple(e) != tuple(g_)), min(len(exp), len(got)))
                 out.append(V('C20', 'tree-differs', f"{'length' if len(exp) != len(got) else exp[first][1] if first < len(exp) else '?'}", f"tree listing differs at line {first}: expected {exp[first] if first < len(exp) else None} got {got[first] if first < len(got) else None}", scenario=sid))
         return out
+
+    @staticmethod
+    def lost(a, b, p=''):
+        """first field of a (the written model) that b (the parsed model as JSON) does not carry with an equal value"""
+        if isinstance(a, dict):
+            if not isinstance(b, dict):
+                return (p, a, b)
+            for k, v in a.items():
+                if k not in b:
+                    if v is None:
+                        continue              # an explicit null and an absent optional field are the same model
+                    return (p + '/' + k, v, '<absent>')
+                r = ModelFamily.lost(v, b[k], p + '/' + k)
+                if r:
+                    return r
+            return None
+        if isinstance(a, list):
+            if not isinstance(b, list) or len(a) != len(b):
+                return (p, a, b)
+            for i, (x, y) in enumerate(zip(a, b)):
+                r = ModelFamily.lost(x, y, p + f'/{i}')
+                if r:
+                    return r
+            return None
+        if isinstance(a, bool) or isinstance(b, bool):
+            return None if a is b else (p, a, b)
+        if isinstance(a, (int, float)) and isinstance(b, (int, float)):
+            return None if float(a) == float(b) else (p, a, b)
+        return None if a == b else (p, a, b)
 
     @staticmethod
     def diff(a, b, p=''):
